@@ -31,9 +31,11 @@ MANIFEST = {
 }
 PROPERTY_FILES = ['Properties/C13.v']
 REFUTED_FILES = ['Refuted/C13.v']
-MODEL_FILES = ['SF/GroupVal.v', 'SF/Window.v', 'SF/GroupCode.v', 'Gen/Gen_c13.v']
+MODEL_FILES = ['SF/GroupVal.v', 'SF/WindowSpec.v', 'SF/Window.v', 'SF/GroupCode.v', 'Gen/Gen_c13.v']
 GENERATED_FILES = ['Gen/Gen_c13.v']      # overwritten with a broken stub by targets.py when generate() raises
-IMPORTS = 'Require Import SF.Prelude SF.PySlice SF.Value SF.Group SF.GroupVal SF.Window Gen.Gen_c13.'
+IMPORTS = 'Require Import SF.Prelude SF.PySlice SF.Value SF.Group SF.GroupVal SF.WindowSpec SF.Window Gen.Gen_c13.'
+# the specification side needs nothing generated: it is still evaluated (search for a failing input) when generate() raises or a model no longer builds
+IMPORTS_SPEC_ONLY = 'Require Import SF.Prelude SF.PySlice SF.Value SF.Group SF.GroupVal SF.WindowSpec.'
 RULE = ('api strata: public iter_group_items / iter_group_labels_items / iter_group*.apply / iter_window_items calls on generated Series and Frames -- exhaustive value sequences of length <= 4 over 3 values for Series, '
         'every block layout of frames with <= 3 columns (thorough: <= 4), both axes, element/list/slice keys of 1-3 positions, key dtypes int/str/bool/float/object(orderable, mixed, colliding str()), flat and hierarchical axes, '
         'one group / all-distinct / duplicated keys; windows: the grid n<=6, size<=4, step<=3, shifts in [-3,3], increment in [-1,1], window_sized on/off (thorough: complete, quick: boundary + random sample) on Series (Series and array windows), plus Frames on both axes; longer axes (20-48 positions, 2-3 distinct keys) on the sort path so that an unstable sort shows; '
@@ -180,8 +182,9 @@ def _gen_window(repo):
     key = _assign(lb[3], 'key')
     _need(isinstance(key, ast.Call) and isinstance(key.func, ast.Name) and key.func.id == 'slice' and len(key.args) == 2 and not key.keywords,
           'key = slice(a, b)')
-    out['w_key_start'] = ('idx_left_floored idx_right_floored', 'Z', _zexpr(key.args[0], {'idx_left_floored', 'idx_right_floored'}))
-    out['w_key_stop'] = ('idx_left_floored idx_right_floored', 'Z', _zexpr(key.args[1], {'idx_left_floored', 'idx_right_floored'}))
+    kvars = {'idx_left', 'idx_right', 'idx_left_floored', 'idx_right_floored'}
+    out['w_key_start'] = ('idx_left idx_right idx_left_floored idx_right_floored', 'Z', _zexpr(key.args[0], kvars))
+    out['w_key_stop'] = ('idx_left idx_right idx_left_floored idx_right_floored', 'Z', _zexpr(key.args[1], kvars))
     # the extraction uses `key` and none of the index variables
     ext = lb[4]
     _need(isinstance(ext, ast.If), 'extraction if')
@@ -250,13 +253,17 @@ def _gen_group(repo):
     gs = _method(tree, 'Frame', '_axis_group_sort_items')
     body = [st for st in gs.body if not _is_doc(st)]
     st0 = body[0]
-    _need(isinstance(st0, (ast.Assign, ast.AnnAssign)) and ast.unparse(st0.value) == 'self.sort_values(key, axis=not axis)',
-          f'frame_sorted = self.sort_values(key, axis=not axis); found {ast.unparse(st0)[:80]}')
+    _need(isinstance(st0, (ast.Assign, ast.AnnAssign)) and isinstance(st0.value, ast.Call) and ast.unparse(st0.value.func) == 'self.sort_values'
+          and [ast.unparse(a) for a in st0.value.args] == ['key']
+          and {k.arg for k in st0.value.keywords} <= {'axis', 'kind'} and 'axis' in {k.arg for k in st0.value.keywords}
+          and all(ast.unparse(k.value) == 'not axis' for k in st0.value.keywords if k.arg == 'axis'),
+          f'frame_sorted = self.sort_values(key, axis=not axis[, kind=...]); found {ast.unparse(st0)[:80]}')
+    explicit_kind = [k.value for k in st0.value.keywords if k.arg == 'kind']
     sv = _method(tree, 'Frame', 'sort_values')
     kw = {a.arg: d for a, d in zip(sv.args.kwonlyargs, sv.args.kw_defaults)}
     _need('kind' in kw and 'ascending' in kw and isinstance(kw['ascending'], ast.Constant) and kw['ascending'].value is True,
           'sort_values defaults')
-    kind = kw['kind']
+    kind = explicit_kind[0] if explicit_kind else kw['kind']
     if isinstance(kind, ast.Name):
         consts = {t.id: st.value for st in util.body if isinstance(st, ast.Assign) for t in st.targets if isinstance(t, ast.Name)}
         _need(kind.id in consts and isinstance(consts[kind.id], ast.Constant) and isinstance(consts[kind.id].value, str), f'constant {kind.id}')
